@@ -211,7 +211,8 @@ pub fn c07(cx: &mut Ctx) {
     }
     // chunk extensions are opaque: quoted strings with obs-text (bytes 0x80 .. 0xFF that are no UTF-8), on a data
     // chunk and on the last chunk, within the 20-byte line limit
-    for (ei, coding) in [&b"6;n=\"caf\xe9\"\r\nabcdef\r\n0\r\n\r\n"[..], &b"2\r\nab\r\n0;sig=\"\xff\x80\"\r\n\r\n"[..],
+    for (ei, coding) in [&b"5;a=1;b=2\r\nhello\r\n0;x;y\r\n\r\n"[..], &b"3;k=\"x;y\"\r\nabc\r\n0\r\n\r\n"[..], &b"1;;\r\na\r\n0;a;b;c;d;e;f\r\nT: v\r\n\r\n"[..],
+                         &b"6;n=\"caf\xe9\"\r\nabcdef\r\n0\r\n\r\n"[..], &b"2\r\nab\r\n0;sig=\"\xff\x80\"\r\n\r\n"[..],
                          &b"1;\x80\r\na\r\n0;\xfe\xff\r\nT: 1\r\n\r\n"[..], &b"3;a=\xc3\xa9\r\nabc\r\n0\r\n\r\n"[..]].iter().enumerate() {
         for cut in [0usize, 3, 9, coding.len() - 3] {
             cx.case("obsext");
@@ -447,7 +448,8 @@ pub fn c08(cx: &mut Ctx) {
     }
     // Transfer-Encoding values that are NOT the chunked coding although they look like it (a prefix of the word,
     // an extension of it, an empty element, an empty value): the body is the declared length, verbatim
-    for te in ["chunk", "ch", "c", "chunked-v2", "chunkedd", "xchunked", "gzip,", ",", "", "chunke", "CHUNK", "chunked2, gzip"] {
+    for te in ["chunk", "ch", "c", "chunked-v2", "chunkedd", "xchunked", "gzip,", ",", "", "chunke", "CHUNK", "chunked2, gzip",
+               "chunked\u{a0}", "\u{a0}chunked", "chunked\u{85}", "gzip, \u{3000}chunked", "chunked\u{2003}", "\u{feff}chunked"] {
         for n in [5usize, 12] {
             cx.case("tenear");
             let body: Vec<u8> = (0..n).map(|i| b"5\r\nab0\r\n\r\n"[i % 10]).collect();
